@@ -102,15 +102,31 @@ def parseReal (r : String) : Option (List (Nat × Nat × Nat)) :=
   else if r == "-" then some []
   else some ((r.splitOn ",").map (fun w => match (w.splitOn ":").map natOf with | [a, b, c] => (a, b, c) | _ => (0, 0, 0)))
 
-/-- first position (lock-step) at which the two choosers differ: (scan choice, ref choice) -/
-partial def firstDiff (cs cr : List Nat → Option Cand) (input : List Nat) : Option (Option Cand × Option Cand) :=
+def pick (si : SetInfo) (useRef : Bool) (kwLexer : Bool) : List Nat → Option Cand :=
+  let v : Nat → Bool := fun i => si.kws.contains i == kwLexer
+  if useRef then refToken si.toks v else lexScan si.toks v
+
+def classify (si : SetInfo) (a b : Option Cand) : String :=
+  match a, b with
+  | some (t, n), some (t', n') =>
+    if (tokAt si.toks t').prec > (tokAt si.toks t).prec && n > n' then "overtake" else "other"
+  | _, _ => "other"
+
+/-- kind of the first deviation (lock-step over the input): compares the main lexers, and when both
+return the word token, the keyword lexers -/
+partial def firstDiffKind (si : SetInfo) (cs cr : List Nat → Option Cand) (input : List Nat) : String :=
   let inp := skipExtras isExtra input
-  if inp.isEmpty then none else
+  if inp.isEmpty then "other" else
   let a := cs inp; let b := cr inp
-  if a != b then some (a, b) else
-  match a with
-  | some (_, n) => if n == 0 then none else firstDiff cs cr (inp.drop n)
-  | none => none
+  if a != b then
+    let ms := pick si false false inp; let mr := pick si true false inp
+    if ms != mr then classify si ms mr
+    else match si.word, ms with
+      | some w, some (i, _) => if i == w then classify si (pick si false true inp) (pick si true true inp) else "other"
+      | _, _ => "other"
+  else match a with
+    | some (_, n) => if n == 0 then "other" else firstDiffKind si cs cr (inp.drop n)
+    | none => "other"
 
 structure Tally where
   strings : Nat := 0
@@ -147,10 +163,7 @@ def evalString (si : SetInfo) (cps : String) (input : List Nat) (r : Option (Lis
   let a := if nt then { a with nontrivial := a.nontrivial + 1 } else a
   let a := if mscan != r then { a with corrBad := a.corrBad + 1, firstCorr := if a.firstCorr == "" then cps else a.firstCorr } else a
   if mref != r then
-    let kind := match firstDiff cs cr input with
-      | some (some (t, n), some (t', n')) =>
-        if (tokAt si.toks t').prec > (tokAt si.toks t).prec && n > n' then "overtake" else "other"
-      | _ => "other"
+    let kind := firstDiffKind si cs cr input
     if kind == "overtake" then { a with dev := a.dev + 1, overtake := a.overtake + 1, firstOvertake := if a.firstOvertake == "" then cps else a.firstOvertake }
     else { a with dev := a.dev + 1, other := a.other + 1, firstOther := if a.firstOther == "" then cps else a.firstOther }
   else a
